@@ -478,8 +478,8 @@ def _real_cards(point, nfs):
         by_nf.setdefault(nf, []).append(mu)
     keys = sorted(by_nf)
     overlap = any(max(by_nf[a]) > min(by_nf[b]) for a, b in zip(keys, keys[1:]))
-    if len(set(mus)) != len(mus):
-        return None
+    if any(len(set(v)) != len(v) for v in by_nf.values()):
+        return None  # repeated knot inside one nf block
     op.init = (1.0, 3)
     op.mugrid = list(zip(mus, nfs))
     op.xgrid = interpolation.XGrid([0.1, 0.5, 1.0])
